@@ -835,6 +835,214 @@ def coincide_cases(ctx, n, part=None):
 # the run
 # ---------------------------------------------------------------------------------------------
 
+# ---------------------------------------------------------------------------------------------
+# float-valued counts: 't_hold / t_unit' and friends, integral only up to float rounding
+# ---------------------------------------------------------------------------------------------
+
+FLOAT_PIPELINES = ('none', 'cleanup', 'tabor', 'cleanup+tabor')
+FLOAT_SHAPES = {
+    'rep': lambda e: ('rep', e, ('atom', 0)),
+    'seq': lambda e: ('seq', [('atom', 1), ('rep', e, ('seq', [('atom', 0), ('atom', 2)])), ('atom', 5)]),
+    'nested': lambda e: ('rep', 'n', ('rep', e, ('atom', 3))),
+    'mapped': lambda e: ('seq', [('atom', 2), ('map', [('k', e)], ('rep', 'k', ('rep', 2, ('seq', [('atom', 0), ('atom', 1)]))))]),
+}
+FLOAT_EXPRS = ('t_hold / t_unit', 't_hold * rate', 't_hold / t_unit + 1')
+
+
+def float_value(rd):
+    """exact value of the float a volatile count expression evaluates to (real scope machinery, no rounding)"""
+    import fractions
+    return fractions.Fraction(float(rd._expression.evaluate_in_scope(rd._scope)))
+
+
+def strip_flags(t):
+    if isinstance(t, tuple):                       # tabor observation
+        return (t[0], tuple((e[0], e[2]) for e in t[2]))
+    if t[0] == 'l':
+        return ['l', t[1], t[4]]
+    return ['n', t[1]] + [strip_flags(c) for c in t[4:]]
+
+
+def float_cases(ctx, n, part=None):
+    rng = ctx.fork('floats' if part is None else 'floats/%d' % part)
+    for _ in range(n):
+        e = rng.choice(FLOAT_EXPRS)
+        shape = rng.choice(sorted(FLOAT_SHAPES))
+        spec = FLOAT_SHAPES[shape](e)
+        if 'rate' in e:
+            second, unit = 'rate', rng.choice([100.0, 10.0, 1000.0, 30.0])
+            grid = 1.0 / unit
+        else:
+            second, unit = 't_unit', rng.choice([0.1, 0.2, 0.3, 0.7, 0.05, 0.6])
+            grid = unit
+        ks = [rng.choice([2, 4, 5, 8])] + [rng.randint(1, 40) for _j in range(rng.randint(2, 5))]
+        values = [float(repr(round(k * grid, 10))) for k in ks]
+        params = {'t_hold': values[0], second: unit}
+        if shape == 'nested':
+            params['n'] = rng.choice([1, 2, 3])
+        names = sorted(params)
+        vol = rng.choice([['t_hold'], ['t_hold'], ['t_hold', second], names])
+        ups = []
+        for v in values[1:]:
+            u = {'t_hold': v}
+            if 'n' in vol and rng.random() < 0.3:
+                u['n'] = rng.choice([1, 2, 4])
+            ups.append(u)
+        yield {'kind': 'float', 'spec': spec, 'params': params, 'vol': sorted(vol), 'updates': ups,
+               'family': 'float-counts'}
+
+
+def float_exhaustive(ctx):
+    """every multiple k*unit, k = 1..K, reached by one update from an exactly representable start"""
+    kmax = ctx.n(24, 60)
+    units = ctx.n([0.1, 0.3, 0.7], [0.1, 0.2, 0.3, 0.6, 0.7, 0.05, 0.9])
+    n = 0
+    for unit in units:
+        ks = list(range(1, kmax + 1))
+        for chunk in range(0, len(ks), 6):
+            ups = [{'t_hold': float(repr(round(k * unit, 10)))} for k in ks[chunk:chunk + 6]]
+            n += len(ups)
+            yield {'kind': 'float', 'spec': FLOAT_SHAPES['seq']('t_hold / t_unit'),
+                   'params': {'t_hold': 2 * unit, 't_unit': unit}, 'vol': ['t_hold'], 'updates': ups,
+                   'family': 'float-exhaustive'}
+    ctx.exhaustive_spaces.append("float counts 't_hold / t_unit': every t_hold = k*t_unit (decimal literal), k = 1..%d, "
+                                 't_unit in %s, supplied through an update (%d updates)' % (kmax, units, n))
+
+
+def run_float_case(ctx, rec, pipelines=FLOAT_PIPELINES):
+    """a float-valued count must, after every update, be the integer nearest to the float value of its expression
+    (Lean judge `fcount`) and equal the count of a fresh, non-volatile instantiation at the new values"""
+    q = Q()
+    spec = _tup(rec['spec'])
+    pt = build(spec)
+    params, vol, ups = dict(rec['params']), sorted(rec['vol']), [dict(u) for u in rec['updates']]
+    canonical = 'float-case ' + json.dumps([rec['spec'], params, vol, ups], sort_keys=True)
+    acc = accumulate(params, ups)
+    ctx.count('family:' + rec.get('family', 'float-counts'))
+    requests = []
+    nontrivial = False
+
+    def record(pipeline, **extra):
+        r = {'kind': 'float', 'spec': rec['spec'], 'params': params, 'vol': vol, 'updates': ups,
+             'family': rec.get('family', 'float-counts'), 'pipeline': pipeline}
+        r.update(extra)
+        return r
+    for pipeline in pipelines:
+        key = 'float:%s' % pipeline
+        reference0 = prepare(pt, params, [], pipeline)
+        prep = prepare(pt, params, vol, pipeline)
+        if prep.error is not None:
+            if reference0.error is None:
+                ctx.violation('instantiation with volatile=%s raises %s, without the volatile marker it succeeds '
+                              '(pipeline %s)' % (vol, prep.error, pipeline), record(pipeline))
+            else:
+                ctx.count(key + ':error:' + prep.error.split(':')[0])
+            continue
+        if prep.outside:
+            ctx.count(key + ':outside:' + prep.outside)
+            continue
+        ctx.count(key + ':kept-volatility')
+        for j, (u, cur) in enumerate(zip(ups, acc)):
+            where = 'pipeline %s, after update %d (%s), accumulated %s' % (pipeline, j + 1, u, cur)
+            try:
+                with warnings.catch_warnings(record=True):
+                    warnings.simplefilter('always')
+                    if prep.tabor is None:
+                        update_loop_program(prep.program, u)
+                        upd = observe(prep.program)
+                        vols = [(l.repetition_definition, int(l.repetition_definition)) for l in all_loops(prep.program)
+                                if l.volatile_repetition]
+                    else:
+                        before = tabor_cells(prep.tabor)
+                        mods = prep.tabor.update_volatile_parameters(dict(u))
+                        after = tabor_cells(prep.tabor)
+                        upd = tabor_observe(prep.tabor)
+                        vols = [(rd, after[tabor_cell_of(prep.tabor, pos)][0])
+                                for pos, rd in prep.tabor._parsed_program.volatile_parameter_positions.items()]
+                        changed = {c for c in after if after[c] != before[c]}
+                        reported = {tabor_cell_of(prep.tabor, pos): tuple(int(x) for x in entry)
+                                    for pos, entry in mods.items()}
+                        if set(reported) != changed or any(after[c] != v for c, v in reported.items()):
+                            ctx.violation('update_volatile_parameters reported %s but the cells that changed are %s; %s'
+                                          % (reported, {c: after[c] for c in sorted(changed)}, where),
+                                          record(pipeline, step=j))
+                        else:
+                            ctx.count(key + ':report-exact')
+            except Exception as exc:  # noqa
+                ctx.violation('update %d raises %s:%s (%s)' % (j + 1, type(exc).__name__, str(exc)[:100], where),
+                              record(pipeline, step=j))
+                break
+            if vols:
+                nontrivial = True
+            for rd, shown in vols:
+                val = float_value(rd)
+                ctx.count('float-value:' + ('exact' if val.denominator == 1 else
+                                            'below-integer' if val < round(val) else 'above-integer'))
+                requests.append(('fcount', sx(['c15', 'fcount', val, int(shown)]),
+                                 (record(pipeline, step=j), float(val), int(shown), where)))
+            fresh = prepare(pt, cur, [], pipeline)
+            if fresh.error == 'empty':
+                played = play(upd) if prep.tabor is None else tabor_play(upd)
+                if played:
+                    ctx.violation('updated program plays %d waveforms, a fresh instantiation is empty; %s'
+                                  % (len(played), where), record(pipeline, step=j))
+                continue
+            if fresh.error is not None or fresh.outside:
+                ctx.count(key + ':fresh-not-comparable')
+                continue
+            if prep.tabor is None:
+                fresh_obs = observe(fresh.program)
+                a, b = strip_flags(upd), strip_flags(fresh_obs)
+                zero = has_zero_vol(upd) or not same_shape(upd, fresh_obs)
+                same = (play(upd) == play(fresh_obs)) if zero else (a == b)
+            else:
+                fresh_obs = tabor_observe(fresh.tabor)
+                a, b = [strip_flags(t) for t in upd], [strip_flags(t) for t in fresh_obs]
+                zero = any(t[0] == 0 or any(e[0] == 0 for e in t[2]) for t in upd)
+                same = (tabor_play(upd) == tabor_play(fresh_obs)) if zero else (a == b)
+            if same:
+                ctx.count(key + ':update-eq-fresh')
+            else:
+                ctx.violation('float-valued count: updated %s differs from a fresh (non-volatile) instantiation %s; %s'
+                              % (str(a)[:300], str(b)[:300], where), record(pipeline, step=j))
+    ctx.case(canonical, nontrivial=nontrivial)
+    return requests
+
+
+def resolve_float(ctx, requests):
+    if not requests:
+        return
+    answers = core.Lean.run([r[1] for r in requests])
+    for (kind, line, (rec, val, shown, where)), ans in zip(requests, answers):
+        if ans and ans[0] == 'err':
+            raise core.MachineryError('driver rejected %s: %s' % (line[:200], ans))
+        ctx.count('judge:float-count:' + ans[0])
+        if ans[0] == 'violates':
+            ctx.violation('float-valued volatile count: the expression evaluates to %r, the count shown is %d, the '
+                          'nearest integer (what a fresh instantiation uses) is %s; %s' % (val, shown, ans[1], where), rec)
+
+
+def run_float_cases(ctx, recs, pipelines=FLOAT_PIPELINES):
+    pending = []
+    for rec in recs:
+        pending.extend(run_float_case(ctx, rec, pipelines))
+    resolve_float(ctx, pending)
+
+
+def _tup(s):
+    if isinstance(s, (list, tuple)):
+        if s and s[0] == 'seq':
+            return ('seq', [_tup(c) for c in s[1]])
+        if s and s[0] == 'map':
+            return ('map', [tuple(kv) for kv in s[1]], _tup(s[2]))
+        if s and s[0] == 'for':
+            return ('for', s[1], list(s[2]), _tup(s[3]))
+        if s and s[0] == 'rep':
+            return ('rep', s[1], _tup(s[2]))
+        return tuple(s)
+    return s
+
+
 def run_cases(ctx, cases, pipelines=PIPELINES, batch=400):
     pending = []
     for case in cases:
@@ -865,7 +1073,10 @@ def _worker(args):
     Q()
     warnings.filterwarnings('ignore')
     cases = FAMILIES[family](sub, size, part, extra)
-    run_cases(sub, cases, pipelines)
+    if family == 'floats':
+        run_float_cases(sub, cases)
+    else:
+        run_cases(sub, cases, pipelines)
     return {'counters': sub.counters, 'evaluations': sub.evaluations, 'distinct': sub.distinct,
             'samples': sub.samples, 'violations': sub.collected, 'drifts': sub.drifts,
             'disagreements': sub.disagreements, 'spaces': sub.exhaustive_spaces}
@@ -899,6 +1110,7 @@ FAMILIES.update({
     'sequences': lambda ctx, size, part, extra: sequence_cases(ctx, size, part),
     'coincide': lambda ctx, size, part, extra: coincide_cases(ctx, size, part),
     'random': lambda ctx, size, part, extra: random_cases(ctx, size, extra, part),
+    'floats': lambda ctx, size, part, extra: float_cases(ctx, size, part),
 })
 
 
@@ -909,7 +1121,10 @@ def run(ctx: core.Ctx):
                 'in quick) x update sequences of 1..5 partial updates with values in {0,1,2,3,4,5,7} x 6 pipelines; plus an '
                 'exhaustive two-level family, a partial-update-sequence family, a family whose volatile counts coincide at '
                 'instantiation and diverge later, and a malformed stream (missing parameter, volatile parameter of an atomic '
-                'pulse). Non-trivial = the prepared program contains at least one volatile node in some pipeline; distinct by '
+                'pulse); a float stream: counts like t_hold / t_unit, t_hold * rate over float parameters whose value is '
+                'integral only up to float rounding (just below, just above, exact), supplied through update sequences, every '
+                'multiple k*t_unit exhaustively, compared with a fresh non-volatile instantiation and judged by floatCount. '
+                'Non-trivial = the prepared program contains at least one volatile node in some pipeline; distinct by '
                 'canonical (template, parameters, volatile set, updates) line')
     ctx.assumptions = [
         'templates carry no measurement declarations and no parameter constraints (merge condition = single child)',
@@ -920,6 +1135,8 @@ def run(ctx: core.Ctx):
         'flatten_and_balance, prepare_program_for_advanced_sequence_mode and the layout of the Tabor tables are '
         'correspondence-only (updated against freshly compiled, on the implementation); the table update itself is '
         'modelled (tableUpdate) and compared on the real volatile positions',
+        'float-valued counts: the expression value is taken from the real scope machinery (float arithmetic is not '
+        'modelled); the spec floatCount = nearest integer of that exact value judges the count shown after an update',
         'PF-07, PF-C15a, PF-C15b, PF-C15c, PF-C15d repaired (fixes/*.diff): the check passes only with these applied',
     ]
     Q()
@@ -930,18 +1147,25 @@ def run(ctx: core.Ctx):
         run_cases(ctx, exhaustive_cases(ctx), pipelines=('none', 'cleanup', 'tabor'))
         run_cases(ctx, sequence_cases(ctx, 50))
         run_cases(ctx, coincide_cases(ctx, 12))
-        run_cases(ctx, random_cases(ctx, 85, 6))
+        run_cases(ctx, random_cases(ctx, 60, 6))
+        run_float_cases(ctx, float_exhaustive(ctx), pipelines=('none', 'tabor'))
+        run_float_cases(ctx, float_cases(ctx, 24))
     else:
         run_family_parallel(ctx, 'exhaustive', 28, 1, pipelines=('none', 'cleanup', 'flatten2', 'tabor', 'cleanup+tabor'),
                             extra=28)
         run_family_parallel(ctx, 'sequences', 1500, 50)
         run_family_parallel(ctx, 'coincide', 300, 25)
         run_family_parallel(ctx, 'random', 2800, 25, extra=16)
+        run_float_cases(ctx, float_exhaustive(ctx))
+        run_family_parallel(ctx, 'floats', 1500, 50)
 
 
 def replay(ctx: core.Ctx, rec: dict, from_corpus: bool = False) -> bool:
     Q()
     before = len(ctx.violations)
+    if rec.get('kind') == 'float':
+        run_float_cases(ctx, [rec], (rec['pipeline'],) if rec.get('pipeline') else FLOAT_PIPELINES)
+        return len(ctx.violations) == before
 
     def tup(s):
         if isinstance(s, list):
